@@ -1,0 +1,77 @@
+//go:build verif
+
+package rueidis
+
+import (
+	"bufio"
+	"encoding/hex"
+	"io"
+	"strconv"
+	"strings"
+)
+
+// Exported wrappers for /verif's correspondence harness (compiled only with -tags verif).
+
+func VerifReadNextMessage(r *bufio.Reader) (RedisMessage, error) { return readNextMessage(r) }
+
+func VerifStreamTo(r *bufio.Reader, w io.Writer) (int64, error, bool) { return streamTo(r, w) }
+
+func VerifWriteCmd(o *bufio.Writer, cmd []string) error { return writeCmd(o, cmd) }
+
+func VerifWriteB(o *bufio.Writer, id byte, str string) error { return writeB(o, id, str) }
+
+func VerifWriteN(o *bufio.Writer, id byte, n int) error { return writeN(o, id, n) }
+
+// VerifDump renders a message canonically: typ:hex(string):intlen:[children]:attrs
+func VerifDump(m *RedisMessage) string {
+	var b strings.Builder
+	verifDump(&b, m)
+	return b.String()
+}
+
+func verifDump(b *strings.Builder, m *RedisMessage) {
+	b.WriteString(strconv.Itoa(int(m.typ)))
+	b.WriteByte(':')
+	if s := m.string(); len(s) == 0 {
+		b.WriteByte('-')
+	} else {
+		b.WriteString(hex.EncodeToString([]byte(s)))
+	}
+	b.WriteByte(':')
+	b.WriteString(strconv.FormatInt(m.intlen, 10))
+	b.WriteString(":[")
+	if m.array != nil {
+		for i := range m.values() {
+			if i > 0 {
+				b.WriteByte(',')
+			}
+			verifDump(b, &m.values()[i])
+		}
+	}
+	b.WriteString("]:")
+	if m.attrs == nil {
+		b.WriteByte('-')
+	} else if m.attrs == cacheMark {
+		b.WriteString("cache")
+	} else {
+		b.WriteByte('{')
+		verifDump(b, m.attrs)
+		b.WriteByte('}')
+	}
+}
+
+// VerifMsg builds a message from parts (children/attrs may be nil).
+func VerifMsg(typ byte, str string, intlen int64, arr []RedisMessage, attrs *RedisMessage) RedisMessage {
+	m := RedisMessage{typ: typ, intlen: intlen, attrs: attrs}
+	if arr != nil {
+		m.setValues(arr)
+	} else if str != "" {
+		m.setString(str)
+	}
+	return m
+}
+
+func VerifSetExpireAt(m *RedisMessage, v int64)  { m.setExpireAt(v) }
+func VerifGetExpireAt(m *RedisMessage) int64     { return m.getExpireAt() }
+func VerifTyp(m *RedisMessage) byte              { return m.typ }
+func VerifRedisError(m RedisMessage) *RedisError { return (*RedisError)(&m) }
